@@ -2013,11 +2013,11 @@ class Lowerer:
         if d['id'] in self.idx.pattern:
             raise Unsupported('call to dependent template pattern %s' % q)
         f = self.request_fn(d)
-        if getattr(self.cur, 'skeleton', False) and f.text is None and f in self.worklist:
-            self.lower_now(f)
         if not hasattr(f, 'ret_hint'):
             ht = self.ty(e['type'])
             f.ret_hint = Ty('ref', to=ht) if self.is_lvalue(e) and ht.kind != 'ref' else ht
+        if getattr(self.cur, 'skeleton', False) and f.text is None and f in self.worklist:
+            self.lower_now(f)
         a = self.args_for(d, args)
         if obj is not None:
             a = [obj] + a
